@@ -296,6 +296,36 @@ Lemma listing_verification_sound listing pw newid f m :
   exists k, In k listing /\ k_id k = f /\ k_pw k = pw /\ k_good k = true.
 Proof. apply search_key_found_good. Qed.
 
+(* the key limit, explicitly: a hint that names a key with a different password (or no key, or several)
+   costs nothing - the listing is searched with the full budget of maxKeys keys *)
+Lemma wrong_hint_costs_nothing keys pw maxk id k :
+  lookup keys id = Some k -> k_good k = true -> k_pw k <> pw ->
+  search_key keys pw maxk true [id] = search_list keys pw maxk 0.
+Proof.
+  intros Hl Hg Hp. unfold search_key. rewrite Hl. unfold open_key. rewrite Hg. cbn [negb].
+  assert (N.eqb (k_pw k) pw = false) as -> by (apply N.eqb_neq; exact Hp). reflexivity.
+Qed.
+
+(* with the regenerated limit: up to max_keys proper key files, any hint: opens iff a key has the password *)
+Lemma opens_iff_at_limit keys pw hg hm :
+  all_good keys = true -> (length keys <= max_keys)%nat ->
+  ((exists id m, search_key keys pw max_keys hg hm = SFound id m) <-> exists k, In k keys /\ k_pw k = pw).
+Proof. intros Hg Hl. apply opens_iff; [exact Hg | right; exact Hl]. Qed.
+
+(* the last listed of exactly maxk keys is still reached after a wrong hint *)
+Lemma last_key_reached keys k pw maxk id kh :
+  all_good (keys ++ [k]) = true -> length (keys ++ [k]) = maxk -> k_pw k = pw ->
+  lookup (keys ++ [k]) id = Some kh -> k_pw kh <> pw ->
+  exists i m, search_key (keys ++ [k]) pw maxk true [id] = SFound i m.
+Proof.
+  intros Hg Hl Hp Hlk Hne.
+  assert (k_good kh = true) as Hgk.
+  { apply lookup_In in Hlk as [Hin _]. unfold all_good in Hg. rewrite forallb_forall in Hg. apply Hg; exact Hin. }
+  rewrite (wrong_hint_costs_nothing _ _ _ _ _ Hlk Hgk Hne).
+  apply search_list_complete; [exact Hg | right; lia |].
+  apply pw_present_iff. exists k. split; [apply in_or_app; right; left; reflexivity | exact Hp].
+Qed.
+
 (* ---------- oracle ---------- *)
 Lemma alive_all_prefixes_spec master cur newid tr : forall st,
   alive_all_prefixes master cur newid st tr = true <->
@@ -338,9 +368,12 @@ Lemma check_history_sound h :
   (forall k, In k (krun (h_master h) (h_before h) (h_trace h)) -> k_master k = h_master h) /\
   h_same_master h = true /\
   (forall pw b, In (pw, b) (h_opens_after h) ->
-     b = pw_present (krun (h_master h) (h_before h) (h_trace h)) pw).
+     b = pw_present (krun (h_master h) (h_before h) (h_trace h)) pw) /\
+  (exists pw, In (pw, true) (h_opens_after h)) /\
+  (h_ret_ok h = true -> forall pw, cmd_newpw (h_cmd h) = Some pw -> In (pw, true) (h_opens_after h)).
 Proof.
-  cbn [check_C29]. intros H. apply andb_true_iff in H as [H Ha]. apply andb_true_iff in H as [Hw Hs].
+  cbn [check_C29]. intros H. apply andb_true_iff in H as [H Hnl].
+  apply andb_true_iff in H as [H Ha]. apply andb_true_iff in H as [Hw Hs].
   unfold h_safe in Hs. apply andb_true_iff in Hs as [Hs _].
   unfold h_wf in Hw. apply andb_true_iff in Hw as [_ Hm].
   unfold h_after_ok in Ha. cbn zeta in Ha. apply andb_true_iff in Ha as [Ha Hsm].
@@ -349,8 +382,15 @@ Proof.
   split.
   { apply same_master. intros k Hk. rewrite forallb_forall in Hm. apply N.eqb_eq. apply Hm; exact Hk. }
   split; [exact Hsm|].
-  intros pw b Hin. rewrite forallb_forall in Ho. specialize (Ho _ Hin). cbn [fst snd] in Ho.
-  apply eqb_prop in Ho. exact Ho.
+  split.
+  { intros pw b Hin. rewrite forallb_forall in Ho. specialize (Ho _ Hin). cbn [fst snd] in Ho.
+    apply eqb_prop in Ho. exact Ho. }
+  unfold h_no_lockout in Hnl. apply andb_true_iff in Hnl as [Hn1 Hn2].
+  split.
+  { apply existsb_exists in Hn1 as [[pw b] [Hin Hb]]. cbn [snd] in Hb. subst b. exists pw; exact Hin. }
+  intros Hr pw Hc. rewrite Hr, Hc in Hn2.
+  apply existsb_exists in Hn2 as [[pw' b] [Hin Hb]]. cbn [fst snd] in Hb.
+  apply andb_true_iff in Hb as [H1 H2]. apply N.eqb_eq in H1. subst. exact Hin.
 Qed.
 
 (* the model's own traces satisfy the history oracle's safety clause *)
